@@ -38,7 +38,7 @@ func Run(c *corr.Ctx) {
 	budget := time.Duration(c.N(2, 10)) * time.Second
 	if raceChild() {
 		// race-enabled child process: concurrent parts only, no oracle
-		for i := 0; i < 600; i++ {
+		for i := 0; i < 600 && !tooStuck(); i++ {
 			runConcRing(c, genConc(c, "conc", i%20 != 0), budget)
 			cc := genConc(c, "aconc", i%20 != 0)
 			if i%3 == 0 {
@@ -76,6 +76,10 @@ func Run(c *corr.Ctx) {
 		}
 		runSeq(c, genRandomSeq(c, maxLen), "random")
 	}
+	if sawPanic.Load() {
+		c.Note("a ring operation panicked in a sequential case (recorded as a violation); Processor and concurrent cases were skipped")
+		return
+	}
 	for _, size := range []uint64{1, 2, 8, 256} {
 		for _, pre := range []int{0, 1, 3, 255} {
 			checkBlockingPull(c, size, pre, false)
@@ -84,24 +88,37 @@ func Run(c *corr.Ctx) {
 	}
 	// deterministic Processor schedules
 	for i, n := 0, c.N(1500, 40000); i < n; i++ {
+		if tooStuck() {
+			break
+		}
 		runAsyncDet(c, genAsyncCase(c), "async-det")
 	}
 	// (b) concurrent, black box
 	for i, n := 0, c.N(150, 3000); i < n; i++ {
+		if tooStuck() {
+			break
+		}
 		runConcRing(c, genConc(c, "conc", true), budget)
 	}
-	for i, n := 0, c.N(6, 60); i < n; i++ {
+	for i, n := 0, c.N(6, 60); i < n && !tooStuck(); i++ {
 		runConcRing(c, genConc(c, "conc", false), budget)
 	}
 	for i, n := 0, c.N(150, 3000); i < n; i++ {
+		if tooStuck() {
+			break
+		}
 		cc := genConc(c, "aconc", true)
 		if c.Rng.IntN(3) == 0 {
 			cc.FailAt = (1+c.Rng.IntN(cc.Producers))*1000000 + 1 + c.Rng.IntN(cc.PerProducer)
 		}
 		runConcAsync(c, cc, budget)
 	}
-	for i, n := 0, c.N(6, 60); i < n; i++ {
+	for i, n := 0, c.N(6, 60); i < n && !tooStuck(); i++ {
 		runConcAsync(c, genConc(c, "aconc", false), budget)
+	}
+	if tooStuck() {
+		c.Note("several operations blocked (time-outs recorded as violations); the remaining blocking-prone cases were skipped")
+		return
 	}
 	raceTier(c)
 }
